@@ -1,0 +1,26 @@
+//go:build verif
+
+package textwire
+
+import "github.com/textwire/textwire/v2/config"
+
+// VerifReset restores the package-level state (configuration, custom
+// functions and the "uses templates" flag) to its initial value, so that
+// a verification harness can run many template trees and histories of
+// calls in one process. It is compiled only with the build tag "verif".
+func VerifReset() {
+	userConfig = config.New("templates", ".tw.html", "", false)
+	customFunc = config.NewFunc()
+	usesTemplates.Store(false)
+}
+
+// VerifTemplateNames returns the names under which templates are registered.
+func (t *Template) VerifTemplateNames() []string {
+	names := make([]string, 0, len(t.programs))
+
+	for name := range t.programs {
+		names = append(names, name)
+	}
+
+	return names
+}
